@@ -2,12 +2,43 @@
 
 package actor
 
+import (
+	"strconv"
+	"sync"
+)
+
 // VerifMsg is the payload the mailbox harness puts in a ReceiveContext.
 type VerifMsg struct{ ID int }
 
 // VerifNewContext builds a bare ReceiveContext carrying message id (no pooling involved).
 func VerifNewContext(id int) *ReceiveContext {
 	return &ReceiveContext{message: &VerifMsg{ID: id}}
+}
+
+// VerifNewContextFrom is VerifNewContext with a sender whose ID() is "s<key>" (key 0 = no sender).
+func VerifNewContextFrom(id, key int) *ReceiveContext {
+	rc := &ReceiveContext{message: &VerifMsg{ID: id}}
+	if key != 0 {
+		rc.sender = verifSender(key)
+	}
+	return rc
+}
+
+var (
+	verifSendersMu sync.Mutex
+	verifSenders   = map[int]*PID{}
+)
+
+func verifSender(key int) *PID {
+	verifSendersMu.Lock()
+	defer verifSendersMu.Unlock()
+	if p, ok := verifSenders[key]; ok {
+		return p
+	}
+	s := "s" + strconv.Itoa(key)
+	p := &PID{path: &path{name: s, cachedStr: s}}
+	verifSenders[key] = p
+	return p
 }
 
 // VerifContextID returns the message id carried by rc (-1 if it carries none).
@@ -17,6 +48,14 @@ func VerifContextID(rc *ReceiveContext) int {
 	}
 	if m, ok := rc.message.(*VerifMsg); ok && m != nil {
 		return m.ID
+	}
+	return -1
+}
+
+// VerifMsgID is VerifContextID for a bare message (priority functions receive Message()).
+func VerifMsgID(m any) int {
+	if v, ok := m.(*VerifMsg); ok && v != nil {
+		return v.ID
 	}
 	return -1
 }
